@@ -665,6 +665,9 @@ def length_sweep(rng, enabled):
 
 def fuzz_script(ctx, rng, enabled, n):
     cmds = ["hset 0 0 0", "obj 0 %d 1" % rng.randrange(16)]
+    if "yescrypt" in enabled:
+        for s in gen.yescrypt_malformed_params(rng, full=False):
+            cmds.append("crypt_rn 0 %s %s 32768" % (hx(b"pw"), hx(s)))
     for s in length_sweep(rng, enabled):
         cmds.append("%s 0 %s %s" % (rng.choice(("crypt_rn", "crypt_r")), hx(gen.rand_phrase(rng, rng.choice((1, 9)))), hx(s)))
     for i in range(n):
@@ -933,6 +936,8 @@ def c12(ctx):
             cmds.append(gs_cmd("gensalt_rn", pfx, 0, rb))
         for rep in range(3):
             cmds.append(gs_cmd(rng.choice(("gensalt_rn", "gensalt", "gensalt_ra")), pfx, 0, None))
+        for nrb in (-1, -16, -2147483648, 1, 5, 300):          # with rbytes == NULL the count is ignored
+            cmds.append(gs_cmd("gensalt_rn", pfx, 0, None, str(nrb)))
     ev1 = ctx.run_xcv(cmds)
     # every single bit of the supplied bytes flipped
     cmds2 = []
@@ -1379,6 +1384,16 @@ def c02_corpus(rng, E, quick, fixed):
         elif m in ("bigcrypt", "descrypt"):
             sets = [gen.salt(rng, 2) for _ in range(3)] + [gen.salt(rng, 2) + gen.salt(rng, 22)]
         cheap = m in ("nt", "md5crypt", "descrypt", "bigcrypt", "bsdicrypt", "sha1crypt")
+        if m in ("bcrypt", "bcrypt_a", "bcrypt_x", "bcrypt_y"):
+            s0 = gen.PREFIX[m] + "04$" + gen.salt(rng, 21, gen.BF64)
+            for ph in gen.bcrypt_sign_family(rng):
+                out.append((ph, s0 + rng.choice(".Oeu9Zz/A")))          # incl. non-canonical 22nd salt characters
+        if m == "yescrypt":
+            for s in gen.yescrypt_param_sweep(rng, full=not quick):
+                if s.startswith("$y$") or ("gost_yescrypt" in E and s.startswith("$gy$")) or ("scrypt" in E and s.startswith("$7$")):
+                    out.append((gen.rand_phrase(rng, rng.choice((1, 9, 40))), s))
+            for s in gen.yescrypt_malformed_params(rng, full=False)[:: (7 if quick else 1)]:
+                out.append((b"pw", s))
         ls = lens if (not quick or cheap) else [x for i, x in enumerate(lens) if i % 2 == 0 or x in (8, 9, 64, 72, 73, 128)]
         if m in ("scrypt",):
             ls = ls[::3] + [33, 64, 65]
@@ -1697,7 +1712,7 @@ def c17(ctx):
             if rng.random() < 0.3:
                 x.append(noise_cmds(rng, ["md5crypt", "descrypt", "sha256crypt"]))    # other objects / statics only
             x.append("encrypt_r %d %s 0 %d" % (o, b.hex(), noise))
-            x.append("encrypt_r %d %s 1 %d" % (o, b.hex(), rng.choice((0, 9))))
+            x.append("encrypt_r %d %s %d %d" % (o, b.hex(), rng.choice((1, 1, 2, 3, 4, 256, -1, -2, 2147483647, -2147483648)), rng.choice((0, 9))))
         else:
             x.append("setkey - %s %d" % (k.hex(), noise))
             if rng.random() < 0.6:
@@ -1707,7 +1722,7 @@ def c17(ctx):
             x.append("encrypt - %s 0 %d" % (b.hex(), noise))
             if rng.random() < 0.5:
                 x.append("crypt - %s %s" % (hx(b"other"), hx("cd")))
-            x.append("encrypt - %s 1 0" % b.hex())
+            x.append("encrypt - %s %d 0" % (b.hex(), rng.choice((1, 2, 3, 256, -2, -2147483648))))
     ev2 = ctx.run_xcv(x)
     # the generated lookup tables, entry by entry, against their definitions in terms of the FIPS tables
     tb = des_tables(ctx)
@@ -1802,7 +1817,8 @@ def c20(ctx):
         o = rng.randrange(2)
         if rng.random() < 0.5:
             extra.append("scribble %d all %d" % (o, rng.randrange(1, 90)))       # recycled memory: setkey_r must not depend on it
-        extra += ["setkey_r %d %s %d" % (o, k.hex(), rng.choice((0, 5))), "encrypt_r %d %s 0 0" % (o, bl.hex()), "encrypt_r %d %s 1 0" % (o, bl.hex()),
+        extra += ["setkey_r %d %s %d" % (o, k.hex(), rng.choice((0, 5))), "encrypt_r %d %s 0 0" % (o, bl.hex()),
+                  "encrypt_r %d %s %d 0" % (o, bl.hex(), rng.choice((1, 2, -1, 256))),
                   "setkey - %s 0" % k.hex(), "encrypt - %s 0 0" % bl.hex()]
     for m in cfgev["E"]:
         s = cheap_setting(m, rng)
